@@ -8,7 +8,7 @@ CHECKS = {
  "C17": dict(
    technique="exhaustive data walk over the bundled JSON registries (own loader) + abstract evaluation of registered algorithms on undefined fields",
    text="Every clause of C17 is decided for every country (126) and every bank entry (29 451) of whatever data the tree bundles, on every run; "
-        "no sampling; every listed (country, bank code) is additionally looked up again through the tree's own BBAN.bank from an IBAN carrying it (R17-found; quick: one entry per country, every all-zero / all-nine code and a seeded sample of 1 500 keys, thorough: all 22 753 keys). Static: the JSON files and the checksum package are read as data / source, the library is never imported.",
+        "no sampling (incl. R17-cover: the component ranges cover the BBAN, frozen exceptions TR / MU); every listed (country, bank code) is additionally looked up again through the tree's own BBAN.bank from an IBAN carrying it (R17-found; quick: one entry per country, every all-zero / all-nine code and a seeded sample of 1 500 keys, thorough: all 22 753 keys). Static: the JSON files and the checksum package are read as data / source, the library is never imported.",
    note="Trusted: the checker's own registry loader (deep later-wins merge, v2 expansion) — C18's rules tie registry.py to it; ISO 3166 list from the installed pycountry database file; "
         "agreement with SWIFT / national sources is not decided.",
    design="3/C17"),
@@ -24,7 +24,7 @@ CHECKS = {
    design="3/C07"),
  "C06": dict(
    technique="decorator evaluation (exhaustive registration table) + abstract evaluation per country + reference-implementation agreement on a position-covering probe family",
-   text="The 22 countries' registrations are derived by evaluating every register() decorator; for each country the fields read, the width of the computed digits and the possible "
+   text="The 22 countries' registrations are derived by evaluating every register() decorator; for each country the fields read (and that the table places them where the algorithm is defined: pinned ranges), the width of the computed digits and the possible "
         "outcomes of the BBAN-level check (True / InvalidBBANChecksum only) are decided by abstract evaluation over all structure-conforming BBANs; the algorithms' results are compared with "
         "independent reference implementations on a probe family that varies every accepted position over its whole character class; concrete probe BBANs of both polarities go through BBAN.validate_national_checksum and must be accepted exactly when "
         "the reference says so; the generation-side reader (compute_national_checksum) is evaluated per country and must reach the registered algorithm; the flag's effect (national validation can only reject; without the flag nothing national is consulted) "
